@@ -1,0 +1,13 @@
+//go:build verif
+
+package scrapligo
+
+import (
+	scraplinetconf "github.com/scrapli/scrapligo/driver/netconf"
+)
+
+// VerifNewWithDriver wraps an already opened scrapligo NETCONF driver (e.g. one over scrapligo's file
+// transport) instead of dialing the device. Verification harness only.
+func VerifNewWithDriver(d *scraplinetconf.Driver) *ScrapligoNetconfTarget {
+	return &ScrapligoNetconfTarget{driver: d}
+}
